@@ -122,12 +122,15 @@ def relational(ctx):
                                                           ("result is negative", entails_le0(C, -r)),
                                                           ("result is neither a+b nor a+b-n", r == a + b or r == a + b - n)])
         report("add_mod", r1["failures"])
+        incomplete = [("add_mod", r1["incomplete"])] if r1["incomplete"] else []
         pre = rng("p0") + rng("p1") + rng("p2") + [a - n + K(1), b - n + K(1)]
         d = dag.build(mod.funcs["sm"], mod)
         r2 = linrel.analyse(d.ret, pre, lambda w, C, r: [("result is not below the modulus", entails_le0(C, r - n + K(1))),
                                                           ("result is negative", entails_le0(C, -r)),
                                                           ("result is neither a-b nor a-b+n", r == a - b or r == a - b + n)])
         report("sub_mod", r2["failures"])
+        if r2["incomplete"]:
+            incomplete.append(("sub_mod", r2["incomplete"]))
         # half_mod_odd(a, n): a < n, n odd
         n2 = var("p1")
         pre = rng("p0") + rng("p1") + [a - n2 + K(1)]
@@ -150,7 +153,10 @@ def relational(ctx):
         nob = r1["obligations"] + r2["obligations"] + w.obligations
         ndis = nob - len(r1["failures"]) - len(r2["failures"]) - len(fails)
         npaths = r1["paths"] + r2["paths"] + paths
-        ctx.require(r1["paths"] == 2 and r2["paths"] == 2 and paths == 2, "unexpected path counts %s" % [r1["paths"], r2["paths"], paths])
+        if incomplete and not (r1["failures"] or r2["failures"] or fails):
+            raise AnalysisBroken("modular helper %s is outside the linear fragment (%s) and nothing could be decided about it" % incomplete[0])
+        if not incomplete:
+            ctx.require(r1["paths"] == 2 and r2["paths"] == 2 and paths == 2, "unexpected path counts %s" % [r1["paths"], r2["paths"], paths])
     except linrel.Failure as e:
         raise AnalysisBroken("modular helpers are outside the linear fragment: %s" % e)
     return nob, ndis, npaths
@@ -168,6 +174,16 @@ def body(ctx):
         primes.add(prev_prime(2 ** k - 1))
         if k < 64:
             primes.add(next_prime(2 ** k + 1))
+    # the primes just below 2^64 and just above 2^63 (moduli above 2^63 are where a helper that adds
+    # before it reduces wraps; Selfridge's D is negative for some of them, positive for others)
+    p = 2 ** 64 - 1
+    for _ in range(24 if ctx.thorough else 14):
+        p = prev_prime(p - 1)
+        primes.add(p)
+    p = 2 ** 63
+    for _ in range(8 if ctx.thorough else 4):
+        p = next_prime(p + 1)
+        primes.add(p)
     primes.update([2, 3, 5, 7, 97, 541, 547, 7919, 104729, 2147483647, 2305843009213693951, 18446744073709551557, 18446744073709551533])
     for _ in range(30 if ctx.thorough else 8):
         primes.add(next_prime(rnd.randrange(2 ** 40, 2 ** 64 - 10 ** 6) | 1))
